@@ -70,6 +70,17 @@ CHECKS = {
         note=NOTE_COMMON + DB_NOTE + "Skeletons are small (2-3 entities per kind and lexicon).",
         technique="CrossHair symbolic execution (z3) of real wn._core navigation over an executable SQL model",
         ref='4 C10'),
+    'C11': dict(
+        text="Bounded symbolic model checking of the real relation API (relations, get_related, "
+             "relation_map, get_related_synsets, hypernyms/holonyms/..., closure, relation_paths): a base "
+             "lexicon and an extension with relation slots whose target, type, dc:type and declaring "
+             "lexicon are symbolic (self-loops, parallel and duplicated relations, non-standard types), "
+             "symbolic scope and type filter, compared with the declared relations in scope; closure and "
+             "relation_paths on every digraph on 3 nodes with a call budget for termination.",
+        note=NOTE_COMMON + DB_NOTE + "Two slots per source; pools of 2 (quick) to 4 (thorough) values per "
+             "slot attribute.",
+        technique="CrossHair symbolic execution (z3) of real relation queries over an executable SQL model",
+        ref='4 C11'),
     'C13': dict(
         text="Bounded symbolic model checking of the real wn.taxonomy functions and Synset.relation_paths: "
              "adjacency bits of the hypernym graph are symbolic, so every DAG on 4 (thorough: 5) nodes in "
